@@ -44,6 +44,10 @@ class ReplayDiverged(Exception):
     pass
 
 
+class CallTimeExceeded(Exception):
+    pass
+
+
 class HarnessError(Exception):
     pass
 
@@ -256,6 +260,8 @@ class Kernel:
         self.stall_max = 0.0
         self.call_name: Optional[str] = None
         self.call_dec0 = 0
+        self.call_t0 = 0.0
+        self.pause_rate = 0.0
         self.call_budget = 10**9
         self.max_call_decisions = 0
         self.counts: Dict[str, int] = {}
@@ -275,7 +281,7 @@ class Kernel:
         self.counts[key] = self.counts.get(key, 0) + n
 
     def begin_run(self, fair_k: int = 64, line_rate: float = 0.0, line_seed: int = 0, fault_seed: int = 0,
-                  replay: Optional[dict] = None, hot_rate: float = 0.0, spin_guard: bool = False):
+                  replay: Optional[dict] = None, hot_rate: float = 0.0, spin_guard: bool = False, pause_rate: float = 0.0):
         if self.active:
             raise HarnessError("begin_run while a run is active")
         if self.threads:
@@ -288,6 +294,8 @@ class Kernel:
         self.hot_lines = hot_lines() if hot_rate > 0.0 else set()
         self.spin_guard = spin_guard
         self.line_rng = random.Random(line_seed)
+        self.pause_rate = pause_rate
+        self.pause_rng = random.Random(line_seed ^ 0x9A05E)
         self.fault_rng = random.Random(fault_seed)
         if replay is not None:
             self.replay = list(replay["decisions"])
@@ -298,7 +306,7 @@ class Kernel:
         self.by_ident[threading.get_ident()] = u
         self.last = u
         self.set_strategy({"name": "rr"}, 0)
-        if self.line_rate > 0 or self.hot_rate > 0 or self.spin_guard:
+        if self.line_rate > 0 or self.hot_rate > 0 or self.spin_guard or self.pause_rate > 0:
             sys.settrace(_global_tracer)
 
     def set_strategy(self, spec: dict, seed: int):
@@ -312,6 +320,7 @@ class Kernel:
     def call_begin(self, name: str, budget: int):
         self.call_name = name
         self.call_dec0 = self.ndec
+        self.call_t0 = self.now
         self.call_budget = budget
         self.ev("call", name)
 
@@ -376,6 +385,10 @@ class Kernel:
             if wake > self.now:
                 if not jump or fired:
                     break
+                if self.call_name is not None and wake - self.call_t0 > CALL_TIME_BUDGET:
+                    # every thread waits, and the earliest one to wake sleeps beyond any plausible duration of one lifecycle call
+                    raise CallTimeExceeded(f"lifecycle call {self.call_name}() needs more than {CALL_TIME_BUDGET:.0f} s of wall-clock time: "
+                                           f"every thread is waiting and the next one to wake ({t.name}) sleeps for another {wake - self.now:.1f} s")
                 self.now = wake
             heapq.heappop(self.timers)
             t.wake_at = None
@@ -451,6 +464,9 @@ class Kernel:
             nxt = self._choose(me)
         except ReplayDiverged as e:
             self._abort("replay-diverged", str(e))
+            raise SimAbort()
+        except CallTimeExceeded as e:
+            self._abort("livelock", str(e))
             raise SimAbort()
         if nxt is None:
             self._abort("deadlock", "no runnable thread and no timer")
@@ -538,7 +554,15 @@ class Kernel:
             self.now += 1e-6
         return self.now
 
-    def line_hook(self, lineno: int = -1):
+    def line_hook(self, lineno: int = -1, fname: str = ""):
+        if self.pause_rate > 0.0 and self.call_name is not None and self.active and not self.aborting:
+            me = self.cur()
+            # (pauses are concentrated where the user thread walks over the nodes one by one: the start / stop / reset transitions)
+            if me is not None and me.is_user and self.pause_rng.random() < (min(0.25, 12 * self.pause_rate) if fname in PAUSE_FOCUS else self.pause_rate):
+                # the user thread is descheduled by the OS for a while in the middle of a lifecycle call (virtual time passes)
+                self.count("user_thread_pause")
+                self.sleep(self.pause_rng.choice(PAUSES))
+                return
         rate = self.hot_rate if (self.hot_rate > 0.0 and lineno in self.hot_lines) else self.line_rate
         if rate > 0.0 and self.active and not self.aborting and self.line_rng.random() < rate:
             me = self.cur()
@@ -588,6 +612,9 @@ def hot_lines() -> set:
     return _hot_cache[path]
 
 
+CALL_TIME_BUDGET = 600.0  # virtual seconds one lifecycle call may take while every thread only waits on a sleep (rates are several Hz)
+PAUSES = (0.002, 0.05, 0.05, 0.3, 1.0)  # durations (virtual s) of an OS pause of the user thread inside a lifecycle call
+PAUSE_FOCUS = frozenset(("start", "_start", "stop", "_stop", "_set_ts_start"))
 SPIN_LIMIT = 3_000_000  # traced rex lines executed by one thread without reaching a decision point
 
 
@@ -598,7 +625,7 @@ def _local_tracer(frame, event, arg):
             # a task spins inside rex without ever reaching a synchronisation point: deterministic (line counts are), so it is a verdict
             K._abort("livelock", f"a thread executed {SPIN_LIMIT} lines of rex/asynchronous.py without reaching a synchronisation point (line {frame.f_lineno})")
             raise SimAbort()
-        K.line_hook(frame.f_lineno)
+        K.line_hook(frame.f_lineno, frame.f_code.co_name)
     return _local_tracer
 
 
@@ -788,7 +815,7 @@ class SimExecutor:
     def _main(self):
         K.by_ident[threading.get_ident()] = self.t
         self.t.gate.acquire()  # wait until first chosen
-        if K.line_rate > 0 or K.hot_rate > 0 or K.spin_guard:
+        if K.line_rate > 0 or K.hot_rate > 0 or K.spin_guard or K.pause_rate > 0:
             sys.settrace(_global_tracer)
         try:
             while True:
